@@ -72,6 +72,28 @@ def acc(c):
     return ser(c).woehler
 
 
+INT_DTYPES = ('int64', 'int32', 'uint64', 'uint32')
+
+
+def frame(curves, idx=None, int_cols=()):
+    """DataFrame of curves; the columns named in `int_cols` are stored with an integer dtype (what pandas infers when the
+    user writes `k_1=[3, 5]`) -- only allowed when every value of the column is integral and finite, so that the frame
+    denotes exactly the same curves as the float Series the scalar evaluation uses."""
+    df = pd.DataFrame([ser(c) for c in curves], index=idx)
+    for col in int_cols:
+        v = df[col].to_numpy()
+        if not (np.all(np.isfinite(v)) and np.all(v == np.round(v))):
+            raise ValueError('column %s is not integral: %r' % (col, v.tolist()))
+        df[col] = df[col].astype('int64')
+    return df
+
+
+def with_variant(c, variant):
+    """the curve a Miner variant must produce (only k_2 changes)"""
+    k2 = {None: c['k_2'], 'miner_original': INF, 'miner_elementary': c['k_1'], 'miner_haibach': 2.0 * c['k_1'] - 1.0}[variant]
+    return dict(c, k_2=k2)
+
+
 def tr(c, p):
     """(SD, ND) of the curve transformed to failure probability p, as floats."""
     t = acc(c).transform_to_failure_probability(p).to_pandas()
@@ -314,18 +336,34 @@ def _scalar_expect(c, op, x, p):
 
 
 def rel_broadcast(inp):
-    """broadcast inputs give the same numbers as element-wise scalar evaluation."""
+    """broadcast inputs give the same numbers as element-wise scalar evaluation.
+
+    Input dimensions besides the layout: `int_columns` (columns of the frame of curves stored with an integer dtype),
+    `operand_dtype` (dtype of an integer load / cycle array: int64, int32, uint64, uint32), `variant` (a Miner variant
+    applied to the frame / Series accessor before the evaluation; the expectation is the scalar evaluation of the curve
+    with that k_2).  The expectation is always the evaluation of one float Series curve with one float scalar."""
     curves, xs, ps, layout, op, out = inp['curves'], inp['operand'], inp['p'], inp['layout'], inp['op'], []
     n = len(curves)
+    icols, variant = list(inp.get('int_columns') or []), inp.get('variant')
+    odt = inp.get('operand_dtype') or 'int64'
+    if odt not in INT_DTYPES:
+        raise KeyError(odt)
+    ecurves = [with_variant(c, variant) for c in curves]
+    pairs = None
+
+    def accessor(obj):
+        w = obj.woehler
+        return getattr(w, variant)() if variant else w
+
     try:
         if layout in ('frame_scalar', 'frame_array', 'frame_series_aligned', 'frame_series_cross', 'frame_int_array'):
             idx = pd.Index(inp.get('index') or list(range(n)), name=inp.get('index_name'))
-            w = pd.DataFrame([ser(c) for c in curves], index=idx).woehler
+            w = accessor(frame(curves, idx, icols))
             if layout == 'frame_scalar':
                 got = np.asarray(getattr(w, op)(xs[0], ps), dtype=float)
                 pairs = [(i, 0) for i in range(n)]
             elif layout in ('frame_array', 'frame_int_array'):
-                arg = [int(x) for x in xs] if layout == 'frame_int_array' else list(xs)
+                arg = np.asarray([int(x) for x in xs], dtype=odt) if layout == 'frame_int_array' else list(xs)
                 got = np.asarray(getattr(w, op)(arg, ps), dtype=float)
                 pairs = [(i, i) for i in range(n)]
             elif layout == 'frame_series_aligned' and idx.name is not None:
@@ -349,31 +387,32 @@ def rel_broadcast(inp):
                 got = np.asarray([r.loc[(idx[i], lidx[j])] for i, j in pairs], dtype=float)
                 if len(r) != len(pairs):
                     fails(out, 'cross broadcast has the wrong length', length=len(r), expected=len(pairs))
-            exp = [_scalar_expect(curves[i], op, float(xs[j]), ps) for i, j in pairs]
+            exp = [_scalar_expect(ecurves[i], op, float(xs[j]), ps) for i, j in pairs]
         elif layout in ('series_array', 'series_series', 'series_int'):
-            w = acc(curves[0])
+            w = accessor(ser(curves[0]))
             if layout == 'series_array':
                 got = np.asarray(getattr(w, op)(list(xs), ps), dtype=float)
             elif layout == 'series_int':
-                got = np.asarray(getattr(w, op)(np.asarray([int(x) for x in xs]), ps), dtype=float)
+                got = np.asarray(getattr(w, op)(np.asarray([int(x) for x in xs], dtype=odt), ps), dtype=float)
             else:
                 lidx = pd.Index(list(range(100, 100 + len(xs))), name='load_case')
                 r = getattr(w, op)(pd.Series(xs, index=lidx), ps)
                 if not isinstance(r, pd.Series) or not r.index.equals(lidx):
                     fails(out, 'result index is not the operand index', index=list(map(str, getattr(r, 'index', []))))
                 got = np.asarray(r, dtype=float)
-            exp = [_scalar_expect(curves[0], op, float(x), ps) for x in xs]
+            pairs = [(0, j) for j in range(len(xs))]
+            exp = [_scalar_expect(ecurves[0], op, float(x), ps) for x in xs]
         elif layout in ('series_prob_array', 'frame_prob_array', 'frame_prob_scalar'):
             # the transformation itself, with array-like target probabilities
             if layout == 'series_prob_array':
-                t = acc(curves[0]).transform_to_failure_probability(list(ps)).to_pandas()
-                rows = [(curves[0], p) for p in ps]
+                t = accessor(ser(curves[0])).transform_to_failure_probability(list(ps)).to_pandas()
+                rows = [(ecurves[0], p) for p in ps]
             elif layout == 'frame_prob_array':
-                t = pd.DataFrame([ser(c) for c in curves]).woehler.transform_to_failure_probability(list(ps)).to_pandas()
-                rows = list(zip(curves, ps))
+                t = accessor(frame(curves, None, icols)).transform_to_failure_probability(list(ps)).to_pandas()
+                rows = list(zip(ecurves, ps))
             else:
-                t = pd.DataFrame([ser(c) for c in curves]).woehler.transform_to_failure_probability(ps).to_pandas()
-                rows = [(c, ps) for c in curves]
+                t = accessor(frame(curves, None, icols)).transform_to_failure_probability(ps).to_pandas()
+                rows = [(c, ps) for c in ecurves]
             got, exp = [], []
             for (c, p), (_, r) in zip(rows, t.iterrows()):
                 s = acc(c).transform_to_failure_probability(p).to_pandas()
@@ -391,7 +430,8 @@ def rel_broadcast(inp):
         return out
     for k, (g, e) in enumerate(zip(got, exp)):
         if not close(g, e, 1e-12):
-            fails(out, 'broadcast value differs from scalar evaluation', position=k, broadcast=float(g), scalar=float(e))
+            where = {'curve': pairs[k][0], 'x': float(xs[pairs[k][1]])} if pairs else {}
+            fails(out, 'broadcast value differs from scalar evaluation', position=k, broadcast=float(g), scalar=float(e), **where)
     return out
 
 
@@ -477,6 +517,48 @@ def class_sd0_in_broadcast(d):
     return bool(fl) and all(str(f.get('exception', '')).startswith('ValueError') for f in fl)
 
 
+def _differs_only_as(d, alt_curve, applies):
+    """every reported failure of a broadcast input is a wrong number at a position where `applies(curve, x, p)` holds and
+    the broadcast value is what the scalar evaluation of `alt_curve(curve)` gives (1e-12)"""
+    inp = d['input']
+    fl = d.get('failures') or []
+    if not fl or isinstance(inp['p'], list):
+        return False
+    for f in fl:
+        if f.get('detail') != 'broadcast value differs from scalar evaluation' or 'curve' not in f:
+            return False
+        c = with_variant(inp['curves'][f['curve']], inp.get('variant'))
+        if not applies(c, f['x'], inp['p']):
+            return False
+        if not close(f['broadcast'], _scalar_expect(alt_curve(c), inp['op'], f['x'], inp['p']), 1e-12):
+            return False
+    return True
+
+
+def class_int_k1_column(d):
+    """frame of curves whose k_1 column has an integer dtype: _make_k builds the slope array from a copy of that column, so a
+    finite non-integral k_2 is truncated when it is assigned below the limit.  Accepted only if every wrong number belongs to a
+    curve with finite non-integral k_2 and equals the evaluation of the same curve with trunc(k_2)."""
+    if d.get('relation') != 'broadcast' or not str(d['input'].get('layout', '')).startswith('frame'):
+        return False
+    if 'k_1' not in (d['input'].get('int_columns') or []):
+        return False
+    return _differs_only_as(d, lambda c: dict(c, k_2=float(math.trunc(c['k_2']))),
+                            lambda c, x, p: math.isfinite(c['k_2']) and c['k_2'] != math.trunc(c['k_2']))
+
+
+def class_unsigned_cycles(d):
+    """load() with an unsigned-integer array of cycle numbers: basquin_load negates the cycles (`_make_k(-cyc, -ND)`), which
+    wraps around for unsigned dtypes, so no cycle number counts as beyond the knee.  Accepted only if every wrong number is at
+    a cycle number beyond ND of the transformed curve and equals the k_1-branch value (the curve with k_2 := k_1)."""
+    inp = d['input']
+    if d.get('relation') != 'broadcast' or inp.get('op') != 'load' or inp.get('layout') not in ('series_int', 'frame_int_array'):
+        return False
+    if not str(inp.get('operand_dtype', '')).startswith('uint'):
+        return False
+    return _differs_only_as(d, lambda c: dict(c, k_2=c['k_1']), lambda c, x, p: x > tr(c, p)[1])
+
+
 # --------------------------------------------------------------------------- generators
 
 def gen_curve(rng, sd0=False):
@@ -486,6 +568,19 @@ def gen_curve(rng, sd0=False):
     TS = rng.choice([1.0, rng.uniform(1.0, 3.0), TN ** (1.0 / k1)])
     p0 = rng.choice([0.5, 0.5, 0.1, 0.9, rng.uniform(0.01, 0.99), 10 ** rng.uniform(-6, -2), 1 - 10 ** rng.uniform(-6, -2)])
     return {'k_1': k1, 'k_2': k2, 'SD': 0.0 if sd0 else rng.uniform(10.0, 800.0), 'ND': 10 ** rng.uniform(4.0, 7.3),
+            'TN': TN, 'TS': TS, 'failure_probability': p0}
+
+
+def gen_int_curve(rng):
+    """a curve whose k_1 (and, mostly, the other parameters) are integral numbers, so that a frame of such curves can be
+    stored with integer columns; k_2 is inf, integral or finite non-integral"""
+    k1 = float(rng.randint(2, 12))
+    k2 = rng.choice([k1 + rng.uniform(0.0, 10.0), k1 + rng.uniform(0.0, 10.0), k1 + rng.randint(0, 9) + 0.5, INF, 2.0 * k1 - 1.0, k1,
+                     float(rng.randint(int(k1), int(k1) + 12))])
+    TN = rng.choice([1.0, float(rng.randint(1, 20)), rng.uniform(1.0, 20.0)])
+    TS = rng.choice([1.0, float(rng.randint(1, 3)), rng.uniform(1.0, 3.0), TN ** (1.0 / k1)])
+    p0 = rng.choice([0.5, 0.5, 0.1, 0.9, rng.uniform(0.01, 0.99)])
+    return {'k_1': k1, 'k_2': k2, 'SD': float(rng.randint(10, 800)), 'ND': float(round(10 ** rng.uniform(4.0, 7.3))),
             'TN': TN, 'TS': TS, 'failure_probability': p0}
 
 
@@ -545,6 +640,50 @@ def broadcast_cases(rng, n_cases, with_sd0):
         if lay in ('series_prob_array', 'frame_prob_array'):
             d['p'] = [gen_p(rng) for _ in range(n if lay == 'frame_prob_array' else rng.randint(1, 4))]
         out.append(d)
+    # dtype dimension: frames of curves whose integral columns are stored as integers (what pandas infers from
+    # `k_1=[3, 5]`), with every kind of k_2 (inf, integral, finite non-integral) and operands on both branches
+    frame_layouts = [l for l in layouts if l.startswith('frame')]
+    for i in range(n_cases // 3):
+        lay = frame_layouts[i % len(frame_layouts)]
+        n = rng.randint(1, 4)
+        curves = [gen_int_curve(rng) for _ in range(n)]
+        op = rng.choice(['cycles', 'load'])
+        cand = [k for k in ('k_2', 'SD', 'ND', 'TN', 'TS')
+                if all(math.isfinite(c[k]) and c[k] == round(c[k]) for c in curves)]
+        d = {'layout': lay, 'op': op, 'curves': curves, 'p': gen_p(rng),
+             'int_columns': ['k_1'] + [k for k in cand if rng.random() < 0.4]}
+        if i % 5 == 4:
+            d['int_columns'] = [k for k in cand if rng.random() < 0.6]       # float k_1, other integer columns
+        m = n if lay in ('frame_array', 'frame_series_aligned', 'frame_int_array') else (1 if lay == 'frame_scalar' else rng.randint(1, 4))
+        d['operand'] = []
+        for j in range(m):          # per-curve operands: at the knee, below and above (both branches of every curve)
+            ref = curves[j % n]
+            base, span = (ref['SD'], 0.5) if op == 'cycles' else (ref['ND'], 2.0)
+            d['operand'].append(float(round(rng.choice([base, base * 10 ** rng.uniform(-span, 0.0), base * 10 ** rng.uniform(0.0, span)]) + 1.0)))
+        if rng.random() < 0.5:
+            d['index'] = rng.sample(range(1, 50), n)
+            d['index_name'] = 'element_id'
+        if lay == 'frame_prob_array':
+            d['p'] = [gen_p(rng) for _ in range(n)]
+        if rng.random() < 0.3:
+            d['variant'] = rng.choice(['miner_original', 'miner_elementary', 'miner_haibach'])
+        out.append(d)
+    # integer operand arrays of every width / signedness (cycle counts are naturally unsigned), on both branches:
+    # the product layout x op x dtype is enumerated, 16 combinations per round
+    for i in range(n_cases // 4):
+        lay = ['series_int', 'frame_int_array'][i % 2]
+        op = ['load', 'cycles'][(i // 2) % 2]
+        odt = INT_DTYPES[::-1][(i // 4) % len(INT_DTYPES)]
+        n = 1 if lay == 'series_int' else rng.randint(1, 4)
+        curves = [gen_curve(rng) for _ in range(n)]
+        m = n if lay == 'frame_int_array' else rng.randint(2, 4)
+        xs = []
+        for j in range(m):
+            ref = curves[j % n]
+            base, span = (ref['SD'], 0.5) if op == 'cycles' else (ref['ND'], 2.0)
+            x = [base * 10 ** rng.uniform(-span, 0.0), base * 10 ** rng.uniform(0.0, span)][(i + j) % 2]
+            xs.append(min(float(round(x + 1.0)), 2.0e9 if odt.endswith('32') else 1e18))
+        out.append({'layout': lay, 'op': op, 'curves': curves, 'p': gen_p(rng), 'operand': xs, 'operand_dtype': odt})
     if with_sd0:      # the SD = 0 special case inside a frame / with several target probabilities
         z = gen_curve(rng, sd0=True)
         out.append({'layout': 'frame_prob_scalar', 'op': 'cycles', 'curves': [z, gen_curve(rng)], 'operand': [], 'p': 0.9})
@@ -658,6 +797,8 @@ def ppf_contract(res, stats_mod, probs, n_phi):
 
 def setup_res(res):
     res.classes['sd0_in_broadcast'] = class_sd0_in_broadcast
+    res.classes['int_k1_column'] = class_int_k1_column
+    res.classes['unsigned_cycles'] = class_unsigned_cycles
     res.trusted += ['hand-written model coq/theories/Woehler/Model.v (tied to woehlercurve.py by per-run certificates only)',
                     'py2coq translator + whitelist specs/c08.py (GenWoehlerFunctions from utils/functions.py)',
                     'CoqInterval (interval / integral tactics) for certificates; float -> exact rational conversion',
@@ -676,6 +817,9 @@ def run(res):
     res.cov['rule'] = ('curves: k_1 in (1,15] (real and integral), k_2 in {k_1, 2k_1-1, 25, inf, k_1+U(0,10)}, SD 10..800 (every 9th certificate curve SD = 0), ND 1e4..2e7, '
                        'TN in {1, U(1,20), U(1,3)}, TS in {1, U(1,3), TN^(1/k_1)}, native and target P_f in {0.5, 0.1, 0.9, U(0.001,0.999), 1e-6..1e-2, 1-1e-6..1-1e-2}; '
                        'loads/cycles exactly at the (transformed) knee, one ulp and 1e-12 relative either side, and up to a factor 5 / 1e3 away; '
+                       'broadcast: 11 layouts, plus frames of integral curves whose columns (k_1 always or never, k_2/SD/ND/TN/TS at random) are stored as int64, '
+                       'k_2 in {inf, integral, finite non-integral}, operands per curve at / below / above the knee, optionally a Miner variant applied to the frame; '
+                       'integer operand arrays int64/int32/uint64/uint32 on both branches for cycles and load; '
                        'non-trivial = distinct certificate inputs whose target P_f differs from the native one or whose load/cycle is off the knee, plus '
                        'relation inputs counted distinct by their input')
     proofs_ok = common.standard_proof_stage(res, 'C08', extra_targets=['theories/Common/Cert.vo', 'theories/Woehler/WCert.vo'],
